@@ -1,7 +1,8 @@
 #!/bin/bash
-# run every claimed check's quick tier; print one summary line each
+# run every claimed check's quick tier; print one summary line each.  usage: runall.sh [seed]
 cd /verif
 export GOFLAGS=-mod=mod GOPROXY=off GOSUMDB=off GOTOOLCHAIN=local
+[ -n "$1" ] && export VERIF_SEED=$1
 for p in $(python3 -c "import json;print(' '.join(c['property_id'] for c in json.load(open('MANIFEST.json'))['checks']))"); do
-  ./check $p --tier quick 2>&1 | grep -E "^(VIOLATION|KNOWN|$p )" | cut -c1-250
+  ./check $p --tier quick 2>&1 | grep -E "^(VIOLATION|KNOWN|Traceback|[A-Za-z]*Error|$p )" | cut -c1-250
 done
